@@ -430,7 +430,11 @@ def r13_4(ctx: Ctx, with_equivalence: bool = False, strict_ties: bool = False):
         sn, other = m.params()[0], m.params()[1]
         rets = [r for r in body_walk(m.node) if isinstance(r, ast.Return) and not (isinstance(r.value, ast.Constant))]
         mdefs = local_defs(m)
-        rv = ast.parse(canon(rets[0].value, mdefs), mode="eval").body if len(rets) == 1 else None
+        import copy as _copy
+
+        from ..core import _Subst
+
+        rv = _Subst(mdefs, 4).visit(_copy.deepcopy(rets[0].value)) if len(rets) == 1 else None
         all_rets = [r for r in body_walk(m.node) if isinstance(r, ast.Return)]
         if rv is None or len(all_rets) > 1:
             # several exits: reduce the body to one expression and drop the `other is None` guard
@@ -448,6 +452,17 @@ def r13_4(ctx: Ctx, with_equivalence: bool = False, strict_ties: bool = False):
                 rv = _const_fold(_simplify_bool(G().visit(E)))
                 rets = rets[-1:]
         want_args = [f"{sn}.fitness", f"{other}.fitness"]
+        if rv is not None and len(all_rets) == 1:
+            # single exit with the None guard folded into the expression: `other is not None and <core>`
+            class G1(ast.NodeTransformer):
+                def visit_Compare(self, node):
+                    if len(node.ops) == 1 and isinstance(node.ops[0], (ast.Is, ast.IsNot, ast.Eq, ast.NotEq)) and canon(node.left) == other and canon(node.comparators[0]) == "None":
+                        return ast.Constant(value=isinstance(node.ops[0], (ast.IsNot, ast.NotEq)))
+                    return node
+
+            from ..normalize import _simplify_bool as _sb
+
+            rv = _const_fold(_sb(G1().visit(rv)))
         if rv is not None:
             class _StripEval(ast.NodeTransformer):
                 """X.evaluate() returns X: irrelevant for which values are compared (its side effect is other rules' concern)"""
@@ -491,7 +506,7 @@ def r13_4(ctx: Ctx, with_equivalence: bool = False, strict_ties: bool = False):
     pe = ctx.prog.own_method("Problem", "equivalent")
     a, b = pe.params()[1], pe.params()[2]
     rets = [r for r in body_walk(pe.node) if isinstance(r, ast.Return) and r.value is not None]
-    rv = ast.parse(canon(rets[0].value, local_defs(pe)), mode="eval").body if len(rets) == 1 else None
+    rv = __import__("hmslint.core", fromlist=["subst_expr"]).subst_expr(rets[0].value, local_defs(pe)) if len(rets) == 1 else None
     st = INCONCLUSIVE
     if isinstance(rv, ast.Compare) and len(rv.ops) == 1 and isinstance(rv.ops[0], ast.Eq) and sorted([canon(rv.left), canon(rv.comparators[0])]) == sorted([a, b]):
         st = OK
@@ -547,7 +562,7 @@ def r13_6(ctx: Ctx):
                 if kv is not None:
                     cands.append((st, kv))
         for st, v0 in cands:
-            v = ast.parse(canon(v0, defs), mode="eval").body
+            v = __import__("hmslint.core", fromlist=["subst_expr"]).subst_expr(v0, defs)
             while isinstance(v, ast.Call) and norm(v.func) in ("float", "np.float64") and len(v.args) == 1:
                 v = v.args[0]
             reads_opt = any(isinstance(x, ast.Attribute) and x.attr in ("fun",) for x in ast.walk(v))
